@@ -167,6 +167,29 @@ CLAIMED = {
   note="Trusted: Lean kernel + standard axioms; harness; scipy.optimize.minimize and sklearn.clone are parameters.",
   technique="Lean 4 proof (record algebra, clamp positivity, zip/lookup round-trip) + API correspondence and fit outcome classification",
   design="5 C17"),
+ "C18": dict(
+  text="Lean 4 theorems (FormakVerif.C18): search_sound / bfs_sound prove for every transition graph with distinct transition names, every fuel "
+       "and every queue that a path returned by the breadth-first search, followed from the start state, ends in the requested state; argmin_mem "
+       "/ argmin_some prove that grid selection returns a member of the grid; min_samples the size gate. The transition graph of the current "
+       "source is extracted from the live classes on every run (translator) and declared_transitions, search_table (shortest paths and failure "
+       "exactly for unreachable targets, all 3x3 pairs), history_in_order are re-checked on it by the kernel. Tie: search for all pairs and "
+       "non-StateId targets vs the Lean search, paths followed on real objects, fit_model on data sizes 0..4 and small grids with the "
+       "GridSearchCV instance observed (selected = best_params_ = exported config, all within the grid).",
+  note="Trusted: Lean kernel (decide on the 3-state table); harness graph extractor; scikit-learn GridSearchCV internals are outside the model; "
+       "shortest-path/completeness are proven for the extracted graph, not for arbitrary graphs.",
+  technique="Lean 4 proof (BFS soundness by queue invariant; decide on the regenerated graph) + translator + object-level correspondence",
+  design="5 C18"),
+ "C19": dict(
+  text="Lean 4 theorems (FormakVerif.C19: acceleration1-3, rate_roll/pitch/yaw, velocity1-3, position1-3, orientation_oriw..oriz, n2_product; "
+       "Strapdown.rot_is_sandwich) prove for all real inputs with |ori (x) cori|^2 != 0 that the 16 update expressions of the current "
+       "strapdown_imu.py - rewritten as Lean real functions by the translator on every run - equal the rigid-body kinematics specification "
+       "(rotated bias-corrected specific force over |q|^2 plus gravity; gyro vector sandwiched by q; constant-acceleration integrals; "
+       "orientation + 1/2 ori (x) (0,w) dt). Tie: the compiled Python model (CSE on/off) at seeded non-unit-quaternion rational points vs an "
+       "independent exact implementation of the specification and vs the Lean by-name model.",
+  note="Trusted: Lean kernel + standard axioms (Mathlib reals; field_simp/ring produce kernel-checked terms); the symbol-renaming table and "
+       "expression printer of the translator; binary64 rounding (1e-9).",
+  technique="Lean 4 proof regenerated from source (translator sympy -> Lean reals; field_simp + ring) + numeric correspondence",
+  design="5 C19"),
 }
 REASONS_TODO = "check not built yet in this round (see DESIGN.md section 10 build order); no claim is made"
 
